@@ -88,10 +88,16 @@ def filter_attrs(attrs_text, extra_derive=()):
     for d in extra_derive:
         if d not in kept:
             kept.append(d)
+    explicit_clone = False
+    if "Clone" in kept and "Copy" not in kept:
+        # a derived Clone of a non-Copy type is emitted as an explicit impl carrying the spec `r == *self`
+        # (what #[derive(Clone)] generates: field-wise clone); Verus attaches no spec to the derive itself
+        kept.remove("Clone")
+        explicit_clone = True
     other = re.sub(r"#\[derive\([^)]*\)\]", "", attrs_text)
     other_attrs = re.findall(r"#\[[^\]]*\]", other)
     text = ("#[derive(%s)]\n" % ", ".join(kept)) if kept else ""
-    return text, dropped, other_attrs, n7
+    return text, dropped, other_attrs, n7, explicit_clone
 
 
 def find_loops(m):
@@ -150,6 +156,12 @@ def annotate_body(body, c, out_log, notes=None):
     recorded in `notes` (degraded mode): the contract's requires/ensures stay, only proof help is lost."""
     if notes is None:
         notes = []
+    for asc in getattr(c, "ascribe", []):
+        var, ty = [x.strip() for x in asc.split(":", 1)]
+        pat = re.compile(r"let\s+mut\s+%s\s*=" % re.escape(var))
+        if not pat.search(body):
+            notes.append("ascribe target %s not found in %s" % (var, c.name))
+        body = pat.sub("let mut %s: %s =" % (var, ty), body)
 
     def lost(msg):
         notes.append(msg)
@@ -417,6 +429,12 @@ def generate(unit_name, repo=None, extra_fn_hook=None, canary=False, findings=Fa
                 info["variant_uses"].append({"file": file, "use": u})
         for v in specs.verus.get(file, []):
             if src.get("verus", True):
+                # definitions this unit's proofs never need to look into are hidden from the solver (smaller queries)
+                if unit.get("lemmas") == "imported":
+                    # lemmas are proved in their home unit; here they are only declared (a lemma this unit does not call costs nothing)
+                    v = re.sub(r"(?m)^(pub proof fn )", r"#[verifier::external_body]\n\1", v)
+                for nm in unit.get("opaque", []):
+                    v = re.sub(r"(?m)^(pub open spec fn %s\b)" % re.escape(nm), r"#[verifier::opaque]\n\1", v)
                 out.add(v, spec_text=True)
         for ent in src["items"]:
             if isinstance(ent, str):
@@ -435,7 +453,7 @@ def generate(unit_name, repo=None, extra_fn_hook=None, canary=False, findings=Fa
                 it = cands[0]
                 if len(cands) > 1:
                     raise LostAnchor("%s: `%s` ambiguous" % (file, key))
-                attrs, dropped, other, n7 = filter_attrs(it.attrs_text(), ia.derive_add if ia else ())
+                attrs, dropped, other, n7, explicit_clone = filter_attrs(it.attrs_text(), ia.derive_add if ia else ())
                 if dropped or other:
                     info["dropped"].append({"item": "%s :: %s" % (file, key), "derives": dropped, "attrs": other})
                 if ia and ia.attrs:
@@ -447,6 +465,15 @@ def generate(unit_name, repo=None, extra_fn_hook=None, canary=False, findings=Fa
                     txt = re.sub(r":\s*&\s*str\b", ": &'static str", txt, count=1)
                     info.setdefault("item_rules", []).append({"item": "%s :: %s" % (file, key), "rule": "N9"})
                 out.add("pub " + txt, item="%s :: %s" % (file, key))
+                if explicit_clone:
+                    gm = re.match(r"\s*(?:struct|enum)\s+([A-Za-z_][A-Za-z0-9_]*)\s*(<[^>{(]*>)?", txt)
+                    tyname, gens = gm.group(1), gm.group(2) or ""
+                    if gens:
+                        gp = ", ".join(x.strip().split(":")[0].strip() for x in gens[1:-1].split(","))
+                        out.add("impl%s Clone for %s<%s> { #[verifier::external_body] fn clone(&self) -> (r: Self) ensures r == *self { unimplemented!() } }" % (gens.replace(">", ": Clone>") if ":" not in gens else gens, tyname, gp), shim="derived-clone")
+                    else:
+                        out.add("impl Clone for %s { #[verifier::external_body] fn clone(&self) -> (r: Self) ensures r == *self { unimplemented!() } }" % tyname, shim="derived-clone")
+                    info.setdefault("item_rules", []).append({"item": "%s :: %s" % (file, key), "rule": "derived-Clone-spec"})
                 out.add("")
                 info["items"].append({"item": "%s :: %s" % (file, key), "n7_structural": n7,
                                       "sha256": hashlib.sha256(it.text().encode()).hexdigest()})
